@@ -224,7 +224,14 @@ func (db *MultiBucketBackend) getBucketWithArbitraryPrefixLocked(bucket string, 
 		}
 		objectName := parts[1]
 
-		if !prefix.Match(objectName, nil) {
+		var match gofakes3.PrefixMatch
+		if !prefix.Match(objectName, &match) {
+			return nil
+		}
+		if match.CommonPrefix {
+			// A key that has the delimiter after the prefix is reported through
+			// its common prefix, whatever the delimiter is:
+			response.AddPrefix(match.MatchedPart)
 			return nil
 		}
 
@@ -252,6 +259,9 @@ func (db *MultiBucketBackend) getBucketWithArbitraryPrefixLocked(bucket string, 
 	// before "a-b"); S3 lists keys in byte order of the whole key.
 	sort.Slice(response.Contents, func(i, j int) bool {
 		return response.Contents[i].Key < response.Contents[j].Key
+	})
+	sort.Slice(response.CommonPrefixes, func(i, j int) bool {
+		return response.CommonPrefixes[i].Prefix < response.CommonPrefixes[j].Prefix
 	})
 
 	return response, nil
